@@ -177,10 +177,10 @@ impl Method for UpperReversalSignal {
 	fn next(&mut self, &value: &Self::Input) -> Self::Output {
 		self.window.push(value);
 
-		let first_index = self
-			.index
-			.saturating_add(1)
-			.saturating_sub(self.window.len());
+		// position of the oldest value in the window (computed without overflow of `PeriodType`)
+		#[allow(clippy::cast_possible_truncation)]
+		let first_index =
+			(self.index as usize + 1).saturating_sub(self.window.len() as usize) as PeriodType;
 
 		if self.max_index < first_index {
 			let mut max_index = first_index;
@@ -211,7 +211,14 @@ impl Method for UpperReversalSignal {
 			Action::None
 		};
 
-		self.index = self.index.saturating_add(1);
+		// positions are only meaningful relative to the window: rebase them before the counter
+		// reaches the capacity of `PeriodType` (`max_index >= first_index` always holds here)
+		if self.index >= PeriodType::MAX - 1 {
+			self.index -= first_index;
+			self.max_index -= first_index;
+		}
+
+		self.index += 1;
 		s
 	}
 }
@@ -311,10 +318,10 @@ impl Method for LowerReversalSignal {
 	fn next(&mut self, &value: &Self::Input) -> Self::Output {
 		self.window.push(value);
 
-		let first_index = self
-			.index
-			.saturating_add(1)
-			.saturating_sub(self.window.len());
+		// position of the oldest value in the window (computed without overflow of `PeriodType`)
+		#[allow(clippy::cast_possible_truncation)]
+		let first_index =
+			(self.index as usize + 1).saturating_sub(self.window.len() as usize) as PeriodType;
 
 		if self.min_index < first_index {
 			let mut min_index = first_index;
@@ -345,7 +352,14 @@ impl Method for LowerReversalSignal {
 			Action::None
 		};
 
-		self.index = self.index.saturating_add(1);
+		// positions are only meaningful relative to the window: rebase them before the counter
+		// reaches the capacity of `PeriodType` (`min_index >= first_index` always holds here)
+		if self.index >= PeriodType::MAX - 1 {
+			self.index -= first_index;
+			self.min_index -= first_index;
+		}
+
+		self.index += 1;
 		s
 	}
 }
